@@ -88,7 +88,7 @@ func randomUnicode(r *rng, n int) string {
 		case 5:
 			sb.WriteRune(rune(0x20 + r.intn(0x5F)))
 		case 6:
-			sb.WriteString([]string{" ", "　", " ", " ", "é", "é", "が", "が", "각", "각", "ﬁ", "㍍", "½", "Ω", "Å", "豈"}[r.intn(16)])
+			sb.WriteString([]string{" ", "\u3000", "\u00a0", "\u2003", "é", "é", "が", "が", "각", "각", "ﬁ", "㍍", "½", "Ω", "Å", "豈"}[r.intn(16)])
 		case 7:
 			sb.WriteRune(rune([]int{0x1F600, 0x1D400, 0x2F800, 0x1D15E, 0x10400, 0xE0041}[r.intn(6)]))
 		}
@@ -329,9 +329,9 @@ func runCheckGroups(tier string, seed int64) {
 		vs = append(vs, variant{"sep3000", sentence(idx, lang, "　")})
 		switch r.intn(4) {
 		case 0:
-			vs = append(vs, variant{"sepA0", sentence(idx, lang, " ")})
+			vs = append(vs, variant{"sepA0", sentence(idx, lang, "\u00a0")})
 		case 1:
-			vs = append(vs, variant{"sep2003", sentence(idx, lang, " ")})
+			vs = append(vs, variant{"sep2003", sentence(idx, lang, "\u2003")})
 		case 2:
 			vs = append(vs, variant{"nfc+sep3000", norm.NFC.String(sentence(idx, lang, "　"))})
 		case 3: // mixed separators
@@ -339,7 +339,7 @@ func runCheckGroups(tier string, seed int64) {
 			var sb strings.Builder
 			for i, w := range ws {
 				if i > 0 {
-					sb.WriteString([]string{" ", "　", " ", " "}[r.intn(4)])
+					sb.WriteString([]string{" ", "\u3000", "\u00a0", "\u2003", "\u2009", "\u202f", "\u205f"}[r.intn(7)])
 				}
 				if r.intn(2) == 0 {
 					w = norm.NFC.String(w)
